@@ -12,24 +12,36 @@ open Sfs Sfs.Spec
 
 /-- A count below 2^53 is a binary64 value: its pattern decodes to the integer itself. -/
 theorem count_is_exact (n : Nat) (hn : n < 2 ^ 53) : f64OfBits (f64BitsOfRat (n : Rat)) = .fin (n : Rat) := by
-  sorry
+  exact it_value n hn
 
 /-- … it is printed at precision 0 as its decimal digits … -/
 theorem count_prints_as_integer (n : Nat) (hn : n < 2 ^ 53) : fmtFixed (f64BitsOfRat (n : Rat)) 0 = Nat.toDigits 10 n := by
-  sorry
+  exact it_prints n hn
 
 /-- … and read back to the same bit pattern. -/
 theorem count_text_roundtrip (n : Nat) (hn : n < 2 ^ 53) :
     parseF64 (fmtFixed (f64BitsOfRat (n : Rat)) 0) = some (f64BitsOfRat (n : Rat)) := by
-  sorry
+  exact it_roundtrip n hn
 
 /-- create_stdout_reads_back: for a spectrum of counts (what `create` produces without projection, `C01.run_eq_spec`)
     the text `create` prints is read by `view` / `fold` / `stat` (auto-detected) as exactly that spectrum. -/
 theorem create_stdout_reads_back (shape : List Nat) (counts : List Nat) (hne : shape ≠ [])
     (hb : ∀ v ∈ shape, v < 2 ^ 64) (hsz : checkedSize shape = some counts.length) (hc : ∀ c ∈ counts, c < 2 ^ 53) :
-    readSpectrum (asciiBytes (writeText shape (counts.map (fun c => f64BitsOfRat (c : Rat))) 0)) =
-      .ok (shape, counts.map (fun c => f64BitsOfRat (c : Rat))) := by
-  sorry
+    readSpectrum (asciiBytes (writeText shape (counts.map (fun (c : Nat) => f64BitsOfRat (c : Rat))) 0)) =
+      .ok (shape, counts.map (fun (c : Nat) => f64BitsOfRat (c : Rat))) := by
+  have hwf : C07.WfSpectrum shape (counts.map (fun (c : Nat) => f64BitsOfRat (c : Rat))) := by
+    refine ⟨hne, hb, by rw [List.length_map]; exact hsz, ?_⟩
+    intro b hb'
+    obtain ⟨c, hc', rfl⟩ := List.mem_map.1 hb'
+    exact Nat.lt_trans (it_bits_lt c (hc c hc')) (by decide)
+  obtain ⟨bits', hr, hm⟩ := C07.reads_what_it_writes_text shape _ 0 hwf
+  have : bits' = counts.map (fun (c : Nat) => f64BitsOfRat (c : Rat)) := by
+    apply it_map_some_inj
+    rw [hm, List.map_map, List.map_map]
+    apply List.map_congr_left
+    intro c hc'
+    exact count_text_roundtrip c (hc c hc')
+  rw [hr, this]
 
 /-! non-vacuity -/
 example : (readSpectrum (asciiBytes (writeText [2, 3] ([4, 0, 17, 1, 9007199254740991, 2].map (fun (c : Nat) => f64BitsOfRat (c : Rat))) 0))).toOption
